@@ -11,6 +11,7 @@ import Driver.Segments
 import Driver.Obu
 import Driver.CopyIn
 import Driver.Sse
+import Driver.ApiProto
 
 def main (args : List String) : IO UInt32 := do
   match args with
@@ -27,4 +28,5 @@ def main (args : List String) : IO UInt32 := do
   | ["obu"] => Driver.obuMain; return 0
   | ["copyin"] => Driver.copyInMain; return 0
   | ["sse"] => Driver.sseMain; return 0
+  | ["apiproto"] => Driver.apiProtoMain; return 0
   | _ => IO.eprintln "usage: svtmodel <subcommand>  (input on stdin, one op per line)"; return 2
